@@ -25,7 +25,9 @@ Record async_code := {
   ac_lost_clear_first : bool;     (*   ... BEFORE the errback loop *)
   ac_lost_loop : bool;            (* connectionLost: for tid in list(self.transaction): ...errback *)
   ac_lost_exn : pyexn;            (*   ... ConnectionException *)
-  ac_unit_default : N }.          (* dataReceived: decode_data(data).get("unit", 0) *)
+  ac_unit_default : N;            (* dataReceived: decode_data(data).get("unit", 0) *)
+  ac_unit_wild : list N;          (* _validate_unit_id: the wildcard unit ids 0 and 0xFF ... *)
+  ac_unit_wild_on_frame : bool }. (* ... tested on the EXPECTED units (false) or on the frame's own id (true) *)
 
 Inductive outcome := OCb (tid rid : N) | OErr (e : pyexn).
 
@@ -85,6 +87,8 @@ Definition get_tx (v : variant) (p : list (N * N)) (k : N) : option (N * list (N
   | VFifo => match p with (_, d) :: r => Some (d, r) | [] => None end
   end.
 
+Definition memN (d : N) (l : list N) : bool := existsb (N.eqb d) l.
+
 Section WithCode.
 Variable C : async_code.
 
@@ -134,7 +138,6 @@ Definition guard_fails (σ : astate) : bool := ac_build_guard C && negb (a_conn 
 Definition do_execute (v : variant) (σ : astate) : astate :=
   if guard_fails σ then issue_failed σ else issue_pending v σ.
 
-Definition memN (d : N) (l : list N) : bool := existsb (N.eqb d) l.
 
 (* the user code attached to deferred d runs after it fired with outcome o *)
 Definition react (v : variant) (σ : astate) (d : N) (o : outcome) : astate :=
@@ -154,7 +157,10 @@ Definition handle (v : variant) (σ : astate) (tid rid : N) : astate :=
   | None => σ
   end.
 
-Definition unit_ok (u0 u : N) : bool := N.eqb u0 0 || N.eqb u0 255 || N.eqb u u0.
+(* framer._validate_unit_id(units=[u0], single=False) on a frame for unit u: u0 is the unit the
+   Twisted client took from the first frame of the segment *)
+Definition unit_ok (u0 u : N) : bool :=
+  existsb (N.eqb (if ac_unit_wild_on_frame C then u else u0)) (ac_unit_wild C) || N.eqb u u0.
 
 (* processIncomingPacket over the whole frames of one segment: a frame for another unit than
    the first frame's is skipped (advanceFrame), the frames behind it are still processed *)
@@ -240,4 +246,4 @@ Definition good_code (C : async_code) : Prop :=
   ac_init_connected C = false /\ ac_made_connected C = true /\
   ac_build_guard C = true /\ ac_build_exn C = ConnectionExc /\ ac_handle_by_reply_tid C = true /\
   ac_lost_clears C = true /\ ac_lost_loop C = true /\ ac_lost_exn C = ConnectionExc /\
-  ac_lost_clear_first C = true.
+  ac_lost_clear_first C = true /\ ac_unit_wild C = [0; 255] /\ ac_unit_wild_on_frame C = false.
